@@ -43,6 +43,8 @@ pub enum HKind {
     DropIfr,
     /// the application drops the execute future once it has been polled k times and is pending
     DropAfter(u32),
+    /// the handler panics when it is first polled; the executor (like tokio::spawn) drops the task
+    Panic,
 }
 
 #[derive(Clone, Debug, PartialEq, Eq, Hash, Serialize, Deserialize)]
@@ -162,7 +164,10 @@ impl Reqs {
 pub struct GateShared {
     log: Rc<Log>,
     gates: RefCell<BTreeMap<u32, (bool, Option<Waker>)>>,
+    panics: RefCell<BTreeSet<u32>>,
 }
+
+pub struct HandlerPanic;
 
 pub struct Gate {
     sh: Rc<GateShared>,
@@ -174,6 +179,9 @@ impl Future for Gate {
     type Output = Result<u32, ServerError>;
     fn poll(mut self: Pin<&mut Self>, cx: &mut Context<'_>) -> Poll<Self::Output> {
         self.sh.log.push(Rec::N("hpoll", vec![self.p as i128, self.sh.log.now_ns()]));
+        if self.sh.panics.borrow().contains(&self.p) {
+            std::panic::panic_any(HandlerPanic);
+        }
         let mut g = self.sh.gates.borrow_mut();
         let e = g.entry(self.p).or_insert((false, None));
         if e.0 {
@@ -334,6 +342,14 @@ impl World {
         let gates = Rc::new(GateShared {
             log: log.clone(),
             gates: RefCell::new(BTreeMap::new()),
+            panics: RefCell::new(
+                cfg.reqs
+                    .iter()
+                    .enumerate()
+                    .filter(|(_, r)| r.hk == HKind::Panic)
+                    .map(|(i, _)| i as u32)
+                    .collect(),
+            ),
         });
         let bc: BC = BaseChannel::new(
             server::Config {
@@ -816,10 +832,32 @@ impl World {
                             self.on_panic(Task::Handler(j));
                         }
                     }
-                    Err(_) => {
+                    Err(pl) => {
                         self.log.end_poll(Task::Handler(j), prev, false);
-                        self.on_panic(Task::Handler(j));
-                        std::mem::forget(f);
+                        if pl.downcast_ref::<HandlerPanic>().is_some() {
+                            // the application's handler panicked: the executor drops the task
+                            let _ = take_panic();
+                            let p = {
+                                let mut st = self.st.borrow_mut();
+                                st.handlers[j].ended = true;
+                                st.handlers[j].p
+                            };
+                            self.log.push(Rec::N(
+                                "exec_dropped",
+                                vec![j as i128, p.map(|p| p as i128).unwrap_or(-1)],
+                            ));
+                            if let Some(p) = p {
+                                let mut st = self.st.borrow_mut();
+                                st.finished.insert(p);
+                                st.app_dropped.insert(p);
+                            }
+                            if catch_unwind(AssertUnwindSafe(|| drop(f))).is_err() {
+                                self.on_panic(Task::Handler(j));
+                            }
+                        } else {
+                            self.on_panic(Task::Handler(j));
+                            std::mem::forget(f);
+                        }
                     }
                 }
             }
